@@ -162,6 +162,7 @@ func main() {
 	})
 	runLong(r)
 	runContent(r)
+	runHistory(r)
 	runReal(r)
 	runPlugins(r)
 	cliStage(r)
